@@ -6,12 +6,52 @@ REPO_COMMITS = subprocess.check_output(["git", "-C", "/repo", "log", "--format=%
 hook_commits = [l.split()[0] for l in REPO_COMMITS if l.split(" ", 1)[1].startswith("verif hooks")]
 
 # pid -> (technique, level text, level note, design ref)
+NOTE_ASYNC = "Trusts the guarded hook points (rex/_verif.py) and AsyncGraph.get_record() as observation channels, cross-checked by the witness payloads/host trace; stalls of graphs outside G_live and watchdog firings are inconclusive, never violations."
+NOTE_COMP = "Trusts jax's ordered io_callback and the public Graph.timings arrays as observation channels; configurations rex refuses with an explicit exception are counted as rejected."
+NOTE_PURE = "Reference models are float64 numpy/scipy re-implementations written from the property text; tolerances are stated in DESIGN.md; explicit refusals are counted, not judged."
 CHECKS = {
+ "C01": ("differential monitor: recorded async episodes vs compiled replay, compared per vertex in the rex record and in an independent witness host trace",
+         "Held-on-what-was-observed: each (experiment, mode, prune, episode) replays bit-exactly (eps, seq, ts, rng, state, windows incl. payload, output) for every scheduled vertex inside the horizon, on random G_all graphs recorded under perturbed schedules, ragged multi-episode stacks, all supergraph modes x prune, rollout and reset/step driving.", NOTE_ASYNC + " " + NOTE_COMP, "4/C01"),
+ "C02": ("differential monitor under schedule perturbation: seeded pauses at hooked task boundaries, starved worker, user-thread pauses in start(), real-time factors, run vs reset/step, LINE-level yield injection; records compared on the common prefix",
+         "Held-on-what-was-observed: 7-8 differently perturbed runs per graph (same and fresh AsyncGraph object) agree field by field with the unperturbed baseline; the evidence reports distinct interleaving fingerprints actually produced. Interleavings are sampled, not enumerated.", NOTE_ASYNC, "4/C02"),
  "C03": ("offline checker over recorded episode histories (ordering, exactly-once, causality, policy re-evaluation in exact rationals) on perturbed AsyncGraph runs of generated witness graphs",
-         "Held-on-what-was-observed: every recorded episode of the run is checked clause by clause (exactly-once in-order delivery, recv>=sent, consuming step per policy, gap-free non-overlapping steps, window contents and payload identity). Reach comes from random graphs incl. all policy combinations, heavy jitter, overruns and exact ties; nothing is claimed for graphs or schedules not produced.",
-         "Trusts AsyncGraph.get_record() as the observation channel (cross-checked against the witness payload tags inside the recorded windows); G_all graphs that stall are counted as inconclusive.", "4/C03"),
+         "Held-on-what-was-observed: every recorded episode of the run is checked clause by clause (exactly-once in-order delivery, recv>=sent, consuming step per policy, gap-free non-overlapping steps, window contents and payload identity). Reach comes from random graphs incl. all policy combinations, heavy jitter, overruns and exact ties.", NOTE_ASYNC, "4/C03"),
+ "C04": ("offline reference-model monitor: the start-time recurrence (schedule+drift / previous end / blocking arrival) re-evaluated from primary record fields of generated overrun-heavy graphs",
+         "Held-on-what-was-observed: every recorded step start equals the recomputed law within 5e-7, ts_end = ts_start + delay, deterministic delays exact, stochastic delays within a 6.5-sigma bound of the configured distribution, FREQUENCY spacing and PHASE grid-return clauses; graphs cover both scheduling modes, advance, late blocking arrivals.", NOTE_ASYNC, "4/C04"),
+ "C05": ("bounded-progress monitor with quiescent-deadlock detector and deterministic gates at guarded hooks (supervisor held at sync.enter / sync.before_wait while stop() runs), plus offline isolation checker (episode nonce, seq/time from 0)",
+         "Held-on-what-was-observed: on protocol-valid histories over G_live + the repository's own topology and both clocks no lifecycle call ended in a quiescent deadlock, including the forced lost-wake-up interleaving; every finished episode started from seq 0 / time 0 and saw only its own episode's messages. 'Always returns' is NOT claimed beyond the explored histories and graph class.", NOTE_ASYNC, "4/C05"),
+ "C06": ("execution-count monitor: ordered io_callback inside the witness step reports (node, seq seen, nonce); the multiset is compared with the episode record (async) and the compiled schedule (all modes)",
+         "Held-on-what-was-observed: every recorded/scheduled tick executed exactly once with its own sequence number, masked slots, overridden supervisor steps, the supervisor at step 0 and the final skipped tick executed zero times; jit on/off per node, carried-over episode starts, rollout and reset/step driving.", NOTE_ASYNC + " " + NOTE_COMP, "4/C06"),
+ "C07": ("offline checker of the compiled schedule (Graph.timings) against an independent recomputation of windows, required vertex set and dependency order from graphs_raw",
+         "Held-on-what-was-observed: for every built graph required ⊆ scheduled, nothing scheduled twice, per-kind order increasing, producers strictly earlier, supervisor step p closes partition p, slot fields equal the vertex's own; recorded ragged stacks and generated graphs, all modes x prune, user S_init.", NOTE_COMP, "4/C07"),
+ "C08": ("payload-identity monitor on executed compiled graphs (witness tag = producer, seq) plus static ring-buffer replay of the schedule for automatic and user buffer sizes",
+         "Held-on-what-was-observed: every window entry handed to a step carried the payload (producer, seq, hash) the schedule names or the default output; no read hit an overwritten slot for automatic sizes, admissible user sizes and extra padding, random starting episode/step.", NOTE_COMP, "4/C08"),
+ "C09": ("differential monitor over API compositions: run^n, reset+step^n, rollout carry/full, jit vs eager, vmap vs single, step override, init overrides and clipping",
+         "Held-on-what-was-observed: all compositions give identical GraphState leaves (integer witness state, exact) on generated graphs with several episodes; params/starting eps/step overrides are what the steps see; out-of-range indices equal the clipped index.", NOTE_COMP, "4/C09"),
+ "C10": ("differential monitor: compiled graph with TrainableDist set to d (via create / init_delays) vs the same system with a static Deterministic(d) connection",
+         "Held-on-what-was-observed: windows (seqs, payload hashes), states and outputs agree on vertices scheduled in both, window length == window, out-of-range d saturates; near-ties are excluded and counted; the known finding (window extension short under sender jitter) is classified by mechanism.", NOTE_COMP, "4/C10"),
+ "C11": ("reference-model monitor: float64 piecewise-linear sender signal evaluated beside TrainableDist.apply_delay (both linear variants), continuity and finite-difference gradient checks on generated input states",
+         "Held-on-what-was-observed: thousands of generated input states (windows, rates, delays incl. bounds, filled/unfilled slots, scalar/vector payloads, f32/i32) agree with the reference within 1e-4 of the signal range.", NOTE_PURE, "4/C11"),
+ "C12": ("offline checker over generate_graphs / augment_graphs outputs (well-formedness rules recomputed in numpy) incl. zero-delay ties, mixtures, overruns, trainable connections",
+         "Held-on-what-was-observed: every generated episode satisfies the vertex/edge rules; augmentation leaves existing arrays bit-identical and adds exactly the missing keys.", NOTE_PURE, "4/C12"),
+ "C13": ("record-vs-host-trace monitor in both runtimes plus differential monitor recording on/off/truncated",
+         "Held-on-what-was-observed: every recorded row equals what the witness step reported through the independent host trace, unexecuted rows stay -1, state chain holds, and enabling/disabling/truncating any record setting changes no state, buffer, observation or trace.", NOTE_ASYNC + " " + NOTE_COMP, "4/C13"),
+ "C14": ("round-trip / conservation checker over conversions of recorded ragged experiments (to_graph, stack, getitem, filter, networkx)",
+         "Held-on-what-was-observed: vertices/edges/times preserved exactly, padding only -1 at the tail, both stacking orders agree, filters keep exactly the selected nodes/connections and do not mutate their source, networkx node/edge sets equal the executed relations.", NOTE_PURE, "4/C14"),
+ "C15": ("reference-model monitor: scipy float64 CDFs beside StaticDist/TrainableDist sample/quantile, replay checks, estimator output invariants (optional icontract layer on the real methods)",
+         "Held-on-what-was-observed: non-negative samples, purity and replay of sampling, monotone quantiles agreeing with the true CDF (exact / grid resolution), default delay = 99th percentile, estimator returns proper distributions in data units; sequences of different mixtures in one process.", NOTE_PURE, "4/C15"),
+ "C16": ("reference-model monitor: networkx longest-path phases recomputed after random connect/set_delay histories, info round trips, and short simulated episodes after set_delay",
+         "Held-on-what-was-observed: phases/infos equal the reference within 1e-7 after every history step (reads interleaved with mutations), algebraic loops are reported, set_delay takes effect in simulation, round trips preserve infos/phases/connections.", NOTE_PURE, "4/C16"),
+ "C17": ("round-trip and order-logging monitor over generated pytrees and transform chains",
+         "Held-on-what-was-observed: inv(apply(x)) = x within rounding incl. very narrow bounds, denormalize endpoints/monotonicity, chain order (flat and nested) equals member-by-member application, extend fills exactly the None leaves.", NOTE_PURE, "4/C17"),
+ "C18": ("history monitor: per-iteration candidates/losses/state of CEM and evosax strategies recorded and checked (bounds, monotone best = min finite loss so far, attainment, NaN never elite/best)",
+         "Held-on-what-was-observed: across loss functions incl. NaN half-spaces, all-NaN generations, plateaus/ties, tight bounds, population sizes and strategies.", NOTE_PURE, "4/C18"),
+ "C19": ("reference-model monitors run beside the real wrappers over scripted reward/termination/truncation histories",
+         "Held-on-what-was-observed: Environment.step = graph.step, auto-reset, log accounting (termination-only, truncation-only, both), squash bounds/inverses, running mean/var incl. large-offset observations, for several wrapper stackings and batch sizes.", NOTE_PURE, "4/C19"),
+ "C20": ("differential monitor: exported policy vs independent re-evaluation of the actor network on synthetic and really trained PPO results",
+         "Held-on-what-was-observed: deterministic action and rng-sampled action equal the actor's (normalisation with clipping, squash/clip) for depths 1-4, widths 1-128, all activations, observations up to 1e4x the training range, non-zero log_std.", NOTE_PURE, "4/C20"),
 }
-BUILT = set(CHECKS)
+BUILT = {k for k in CHECKS if os.path.exists(os.path.join(D, 'rexmon', 'monitors', k.lower() + '.py'))}
 props = [json.loads(l) for l in open(os.path.join(D, "properties.jsonl"))]
 checks = []
 for p in props:
